@@ -13,6 +13,7 @@ import (
 	"os"
 	"path"
 	"sort"
+	"strconv"
 	"strings"
 	"syscall"
 	"time"
@@ -73,6 +74,7 @@ type node struct {
 	Dir     bool
 	Durable []byte // content as of the last successful Sync; nil = never made durable
 	HasDur  bool
+	Mtime   int64 // unix seconds on the simulated clock (SIM_NOW) of the last create / write / truncate
 }
 
 type imgFile struct {
@@ -81,6 +83,7 @@ type imgFile struct {
 	Dir     bool   `json:"dir,omitempty"`
 	Durable string `json:"durable,omitempty"` // base64
 	HasDur  bool   `json:"has_durable,omitempty"`
+	Mtime   int64  `json:"mtime,omitempty"`
 }
 
 // Fault: the Nth (1-based) operation Op on Path fails with Err; for "write", After bytes are
@@ -108,6 +111,8 @@ var (
 	counts  = map[string]int{}
 	loaded  bool
 	outPath string
+	simNow  int64 // the simulated clock of this process (SIM_NOW); stamps modification times
+	tmpSeq  int   // CreateTemp / MkdirTemp names are a counter, not random
 )
 
 func errno(name string) error {
@@ -144,6 +149,9 @@ func Load() {
 	}
 	loaded = true
 	outPath = os.Getenv("SIM_DISK_OUT")
+	if v, err := strconv.ParseInt(os.Getenv("SIM_NOW"), 10, 64); err == nil {
+		simNow = v
+	}
 	disk["/"] = &node{Dir: true, Mode: 0o755}
 	disk["/work"] = &node{Dir: true, Mode: 0o755}
 	in := os.Getenv("SIM_DISK")
@@ -162,7 +170,7 @@ func Load() {
 	}
 	for p, f := range img.Files {
 		d, _ := base64.StdEncoding.DecodeString(f.Data)
-		n := &node{Data: d, Mode: f.Mode, Dir: f.Dir, HasDur: f.HasDur}
+		n := &node{Data: d, Mode: f.Mode, Dir: f.Dir, HasDur: f.HasDur, Mtime: f.Mtime}
 		if f.HasDur {
 			n.Durable, _ = base64.StdEncoding.DecodeString(f.Durable)
 		}
@@ -178,7 +186,7 @@ func Flush() {
 	}
 	img := image{Files: map[string]*imgFile{}, Faults: faults, Log: oplog}
 	for p, n := range disk {
-		f := &imgFile{Data: base64.StdEncoding.EncodeToString(n.Data), Mode: n.Mode, Dir: n.Dir, HasDur: n.HasDur}
+		f := &imgFile{Data: base64.StdEncoding.EncodeToString(n.Data), Mode: n.Mode, Dir: n.Dir, HasDur: n.HasDur, Mtime: n.Mtime}
 		if n.HasDur {
 			f.Durable = base64.StdEncoding.EncodeToString(n.Durable)
 		}
@@ -266,7 +274,7 @@ func (fi fileInfo) Mode() fs.FileMode {
 	}
 	return m
 }
-func (fi fileInfo) ModTime() time.Time { return time.Unix(0, 0) }
+func (fi fileInfo) ModTime() time.Time { return time.Unix(fi.n.Mtime, 0) }
 func (fi fileInfo) IsDir() bool        { return fi.n.Dir }
 func (fi fileInfo) Sys() any           { return nil }
 
@@ -327,7 +335,7 @@ func OpenFile(name string, flag int, perm FileMode) (*File, error) {
 			logf("open %s flag=%#x -> EACCES (directory not writable)", p, flag)
 			return nil, &PathError{Op: "open", Path: name, Err: syscall.EACCES}
 		}
-		n = &node{Mode: uint32(perm & 0o777)}
+		n = &node{Mode: uint32(perm & 0o777), Mtime: simNow}
 		if n.Mode == 0 && perm == 0 {
 			n.Mode = 0
 		}
@@ -349,12 +357,46 @@ func OpenFile(name string, flag int, perm FileMode) (*File, error) {
 	}
 	if flag&O_TRUNC != 0 && wantW {
 		n.Data = nil
+		n.Mtime = simNow
 	}
 	logf("open %s flag=%#x -> ok size=%d", p, flag, len(n.Data))
 	return &File{name: name, p: p, n: n, flag: flag}, nil
 }
 
 func Open(name string) (*File, error) { return OpenFile(name, O_RDONLY, 0) }
+
+// CreateTemp / MkdirTemp: the "random" part of the name is a per-process counter, so that a
+// history replays; an existing name is skipped like the real functions do.
+func tempName(dir, pattern string) string {
+	if dir == "" {
+		dir = TempDir()
+	}
+	pre, suf := pattern, ""
+	if i := strings.LastIndex(pattern, "*"); i >= 0 {
+		pre, suf = pattern[:i], pattern[i+1:]
+	}
+	for {
+		tmpSeq++
+		p := path.Join(dir, fmt.Sprintf("%s%09d%s", pre, tmpSeq, suf))
+		if _, ok := disk[norm(p)]; !ok {
+			return p
+		}
+	}
+}
+
+func CreateTemp(dir, pattern string) (*File, error) {
+	Load()
+	return OpenFile(tempName(dir, pattern), O_RDWR|O_CREATE|O_EXCL, 0o600)
+}
+
+func MkdirTemp(dir, pattern string) (string, error) {
+	Load()
+	p := tempName(dir, pattern)
+	if err := Mkdir(p, 0o700); err != nil {
+		return "", err
+	}
+	return p, nil
+}
 
 func Create(name string) (*File, error) {
 	return OpenFile(name, O_RDWR|O_CREATE|O_TRUNC, 0o666)
@@ -403,6 +445,7 @@ func (f *File) Write(b []byte) (int, error) {
 		f.n.Data = nd
 	}
 	copy(f.n.Data[f.off:end], b[:k])
+	f.n.Mtime = simNow
 	logf("write %s off=%d len=%d wrote=%d err=%v", f.p, f.off, len(b), k, ferr)
 	f.off = end
 	if crashWrite {
